@@ -32,7 +32,7 @@ def cases(draw):
         return {"t": ts, "P": P, "P_unit": "d", "t_ref": "explicit", "t_ref_val": t0,
                 "n_bins": draw(st.sampled_from([2, 4, 8, 16, 3, 5])), "perm_seed": draw(st.integers(0, 10**6)), "mode": mode,
                 "clean": draw(st.sampled_from([True, True, False])), "presorted": draw(st.booleans()),
-            "t_ref_scale": draw(st.sampled_from(["tcb", "utc", "tt"]))}
+            "t_ref_scale": "tcb"}     # (scale conversions of the epoch are not exact: the grid needs exact arithmetic)
     nper = draw(gens.logfloat(1e-2, 1e4))
     if mode == "random":
         ts = [t0 + draw(gens.fl(0, nper * P)) for _ in range(n)]
@@ -133,7 +133,7 @@ def body_factory(ctx):
         edges = np.arange(nb + 1) / nb
         idx = np.minimum((phase * nb).astype(int), nb - 1)
         ambiguous = int(np.sum(np.min(np.abs(phase[:, None] - edges[None, :]), axis=1) < ptol))
-        if case["mode"] == "grid":
+        if case["mode"] == "grid" and case.get("t_ref_scale", "tcb") == "tcb":
             # all arithmetic is exact here (dyadic phases): a phase on an edge belongs to the bin that starts there
             # (half-open bins [a, b): those of numpy.histogram, which the function is built on), nothing is ambiguous
             ambiguous = 0
